@@ -139,6 +139,12 @@ class Simulation:
         # First look for a value already cached
         cached_array = holder.get_array(period)
         if cached_array is not None:
+            if Cache(variable_name, period) in self.invalidated_caches:
+                # This value derives from a default substituted by the spiral
+                # heuristic and will be purged: whatever is being computed
+                # from it must not be kept either.
+                for frame in self.tracer.stack:
+                    self.invalidate_cache_entry(str(frame["name"]), frame["period"])
             return cached_array
 
         array = None
